@@ -18,6 +18,37 @@ def x5_sites(repo, funcs):
     return []
 
 
+def x7_sites(repo, funcs):
+    """X7: `table[key]` on a dictionary (a module-level name bound to a dict display / comprehension / dict(...) call,
+    or a local one) with a key that is not a constant raises KeyError for a key that is not in the table - unless the
+    same function tests `key in table` on that table (any position: the decoders use it as an early refusal)."""
+    out = []
+    for (m, f) in funcs.values():
+        dict_names = set()
+        for n in m.tree.body:
+            if isinstance(n, ast.Assign) and isinstance(n.value, (ast.Dict, ast.DictComp)) or \
+                    (isinstance(n, ast.Assign) and isinstance(n.value, ast.Call) and norm(n.value.func) == "dict"):
+                dict_names.update(t.id for t in n.targets if isinstance(t, ast.Name))
+        body = list(walk_no_nested(f))
+        for n in body:
+            if isinstance(n, ast.Assign) and (isinstance(n.value, (ast.Dict, ast.DictComp)) or
+                                              (isinstance(n.value, ast.Call) and norm(n.value.func) == "dict")):
+                dict_names.update(t.id for t in n.targets if isinstance(t, ast.Name))
+        if not dict_names:
+            continue
+        tested = set()
+        for n in body:
+            if isinstance(n, ast.Compare) and any(isinstance(o, (ast.In, ast.NotIn)) for o in n.ops):
+                for c in n.comparators:
+                    if isinstance(c, ast.Name):
+                        tested.add(c.id)
+        for n in body:
+            if isinstance(n, ast.Subscript) and isinstance(n.ctx, ast.Load) and isinstance(n.value, ast.Name) and n.value.id in dict_names \
+                    and not isinstance(n.slice, ast.Constant) and n.value.id not in tested:
+                out.append((m, f, n, "`%s`: a key that is not in the dictionary `%s`" % (norm(n)[:60], n.value.id)))
+    return out
+
+
 NUMERIC_SINK_CALLS = ("Integer", "pow", "construct", "DsaKey", "RsaKey", "ElGamalKey", "bytes_to_long", "long_to_bytes", "range", "inverse")
 
 
@@ -125,7 +156,11 @@ DER_TABLE = [
     ("DerOctetString().decode(data)", [
         ("empty string", H("0400"), True),
         ("one byte", H("0401aa"), True),
+        ("127-byte payload, short form 7F", H("047f") + bytes(127), True),
+        ("127-byte payload in long form 81 7F", H("04817f") + bytes(127), False),
         ("128-byte payload, long form 81 80", H("048180") + bytes(128), True),
+        ("255-byte payload, long form 81 FF", H("0481ff") + bytes(255), True),
+        ("255-byte payload, long form 82 00FF", H("048200ff") + bytes(255), False),
         ("256-byte payload, long form 82 0100", H("04820100") + bytes(256), True),
         ("no input", b"", False),
         ("tag only", H("04"), False),
@@ -517,3 +552,51 @@ def pbes2_structure_rows(check, repo):
     check.ob("K-pw", "K-pw|pbes2.structures", not wrong, mod.path, fn.lineno,
              extracted="; ".join(wrong[:3]) if wrong else "%d structures: every legal shape of PBKDF2-params / scrypt-params reaches the KDF with salt, count, key length and PRF as encoded; malformed ones raise ValueError" % len(cases),
              expected="RFC 8018 A.2 / A.4, RFC 7914 7: optional keyLength and prf in any legal combination; a malformed container is a ValueError, never IndexError or TypeError")
+
+
+def der_writer_rows(check, repo):
+    """The DER writers against the checker's own X.690 encoder (spec/der.py) at the boundaries of the length forms
+    (127/128, 255/256, 65535/65536 content octets) and of the INTEGER sign byte, and decode(encode(v)) == v."""
+    from ..spec import der
+    A = "Crypto.Util.asn1"
+    mod = repo.module(A)
+    wrong = []
+    n = 0
+
+    def enc(expr, **env):
+        it = Interp(repo, max_depth=10, budget=4000000)
+        m2, fn = make_snippet(repo, A, "def __w(%s):\n    return %s\n" % (", ".join(env), expr))
+        res = it.run(m2, fn, dict(env))
+        r = res.returns()
+        return bytes(r[0].value) if len(r) == 1 and isinstance(r[0].value, (bytes, bytearray)) and not res.raises() else ("undecided", len(r), res.raise_classes())
+    for L in (0, 1, 127, 128, 129, 255, 256, 65535, 65536):
+        payload = bytes((7 * i + L) & 0xFF for i in range(L))
+        n += 1
+        got = enc("DerOctetString(p).encode()", p=payload)
+        if got != der.octets(payload):
+            wrong.append("DerOctetString of %d octets: header %s, X.690 gives %s" % (L, got[:6].hex() if isinstance(got, bytes) else got, der.octets(payload)[:6].hex()))
+        n += 1
+        got = enc("DerBitString(p).encode()", p=payload)
+        want = b"\x03" + der.octets(b"\x00" + payload)[1:]
+        if got != want:
+            wrong.append("DerBitString of %d octets: header %s, X.690 gives %s" % (L, got[:6].hex() if isinstance(got, bytes) else got, want[:6].hex()))
+    for v in (0, 1, 127, 128, 255, 256, 32767, 32768, -1, -128, -129, -32768, -32769, (1 << 1015) - 1, 1 << 1015, (1 << 1023), -(1 << 1023), -(1 << 1023) - 1):
+        n += 1
+        got = enc("DerInteger(v).encode()", v=v)
+        if got != der.integer(v):
+            wrong.append("DerInteger(%s): %s, X.690 gives %s" % (v if abs(v) < 10 ** 6 else "%s2^%d.." % ("-" if v < 0 else "", abs(v).bit_length() - 1), got[:8].hex() if isinstance(got, bytes) else got, der.integer(v)[:8].hex()))
+    for members in ([], [5], [5, b"\x04\x01\xaa"], [(1 << 1000)], [1] * 43, [1] * 42 + [b"\x04\x00"]):
+        n += 1
+        got = enc("DerSequence(m).encode()", m=list(members))
+        want = der.seq(*[der.integer(x) if isinstance(x, int) else x for x in members])
+        if got != want:
+            wrong.append("DerSequence of %d members: %s, X.690 gives %s" % (len(members), got[:6].hex() if isinstance(got, bytes) else got, want[:6].hex()))
+    for oid in ("1.2.3", "2.999.3", "1.2.840.113549.1.1.11", "2.5.4.127", "2.5.4.128", "1.3.6.1.4.1.16383", "1.3.6.1.4.1.16384", "0.39"):
+        n += 1
+        got = enc("DerObjectId(o).encode()", o=oid)
+        if got != der.oid(oid):
+            wrong.append("DerObjectId(%s): %s, X.690 gives %s" % (oid, got.hex() if isinstance(got, bytes) else got, der.oid(oid).hex()))
+    fn0 = mod.classes["DerObject"]
+    check.ob("K", "K|der.writers", not wrong, mod.path, fn0.lineno,
+             extracted=("%d of %d rows differ: " % (len(wrong), n) + "; ".join(wrong[:3])) if wrong else "%d encodings equal to X.690 DER (short form up to 127 content octets, minimal long form above; minimal two's-complement INTEGERs; base-128 arcs)" % n,
+             expected="canonical DER: definite length in the shortest form, INTEGER contents minimal, OID arcs in base 128")
